@@ -279,7 +279,18 @@ impl AnalyzeExpression for Expression {
             Self::IntLiteral(_) => Some(DataType::Int),
             Self::Variable(v) => v.analyze(table),
             Self::Binary(b) => b.analyze(table),
-            Self::Unary(u) => u.expr.analyze(table),
+            Self::Unary(u) => {
+                // the only unary operator is the arithmetic minus
+                if let Some(data_type) = u.expr.analyze(table) {
+                    if data_type != DataType::Int {
+                        u.info.append_error(SplError(
+                            u.to_range(),
+                            SemanticErrorMessage::ArithmeticOperatorNonInteger.into(),
+                        ));
+                    }
+                }
+                Some(DataType::Int)
+            }
             Self::Bracketed(b) => b.expr.analyze(table),
             Self::Error(_) => None,
         }
